@@ -1,0 +1,65 @@
+//go:build verif
+
+// Verification hooks of the vm engine (build tag "verif", add-only).
+
+package runtime
+
+import (
+	"fmt"
+	"reflect"
+	"time"
+)
+
+// VerifSpawnView runs VM.startGoroutine on a hand-made parent frame: the int
+// register file is ints (its length is the stack top), the frame pointer is
+// fp, the stack shift of the call is off. The started function sends its int
+// registers 1..k on a channel; they are returned. fault is the text of the
+// panic raised by startGoroutine, if any.
+func VerifSpawnView(ints []int64, fp, off uint32, k int) (vals []int64, fault string) {
+	vm := create(&env{})
+	vm.regs.int = append([]int64(nil), ints...)
+	vm.st[0] = Addr(len(ints))
+	vm.fp[0] = Addr(fp)
+	ch := make(chan int64, k)
+	vm.regs.general[1] = reflect.ValueOf(ch)
+	callee := &Function{Name: "callee", NumReg: [4]int8{int8(k), 0, 0, 1}}
+	for r := 1; r <= k; r++ {
+		callee.Body = append(callee.Body, Instruction{Op: OpSend, A: int8(r), C: 1})
+	}
+	callee.Body = append(callee.Body, Instruction{Op: OpReturn})
+	parent := &Function{
+		Name:      "parent",
+		Functions: []*Function{callee},
+		Body: []Instruction{
+			{Op: OpGo},
+			{Op: OpCallFunc, A: 0},
+			{Op: Operation(int8(off))},
+			{Op: OpReturn},
+		},
+	}
+	vm.fn = parent
+	vm.pc = 1
+	func() {
+		defer func() {
+			if r := recover(); r != nil {
+				fault = fmt.Sprint(r)
+			}
+		}()
+		vm.startGoroutine()
+	}()
+	if fault != "" {
+		return nil, fault
+	}
+	for i := 0; i < k; i++ {
+		select {
+		case v := <-ch:
+			vals = append(vals, v)
+		case <-time.After(5 * time.Second):
+			return vals, "timeout"
+		}
+	}
+	return vals, ""
+}
+
+// VerifStackSize is the initial size of every register file.
+const VerifStackSize = stackSize
